@@ -34,7 +34,7 @@ def cases(tier, seed):
             # quick: the canonical two-thread race (earlier argument | later argument) swept completely,
             # the other configurations sampled; thorough: everything completely
             full = tier == "thorough" or ((p, q) == (2, 0) and tuple(pair) == (1, 2))
-            parts = 16 if full else 2
+            parts = 32 if full else 2
             for part in range(parts):
                 out.append({"name": "apply.nested/p=%d/q=%d/%d|%d/%d" % (p, q, pair[0], pair[1], part), "kind": "nested", "p": p, "q": q,
                             "pair": list(pair), "budget": None if full else 150, "slice": [part, parts]})
